@@ -80,6 +80,70 @@ pub fn run(a: &Args) {
             out.rec(&rec);
         }
     }
+    // pack sizes sweeping every value of a range around 4 KiB / 8 KiB (read-ahead and guess sizes live there): one blob per
+    // pack, file lengths differing by one byte; all index files removed, repair-index, read back
+    for (k, (lo, hi)) in [(3_900usize, 4_350usize), (7_950, 8_400)].into_iter().enumerate() {
+        if a.num("sweep", 1) == 0 {
+            break;
+        }
+        let store = MemStore::new();
+        store.0.log_reads.store(false, std::sync::atomic::Ordering::Relaxed);
+        let h = store.handle(0);
+        let key = MasterKey::new();
+        let cfg = scn::small_config(32_768, 100).set_compression(if k == 0 { 3i32 } else { -5i32 });
+        let id = format!("sizes-{seed}-{lo}");
+        let mut rec = json!({"e":"bigpack","id":id,"n":hi - lo,"compressed":true});
+        let src = MemSource::new((lo..hi).map(|l| Entry::file(&format!("f{l}"), rng.bytes(l))).collect());
+        let res = scn::guard(|| {
+            _ = scn::init(&h, &key, &cfg)?;
+            let repo = scn::open(&h, &key)?.to_indexed_ids()?;
+            scn::backup_mem(&repo, &src, &BackupOptions::default(), scn::snap_at(1000))
+        });
+        let Outcome::Ok(sn) = res else {
+            rec["result"] = json!(format!("backup {}: {}", res.class(), res.msg()));
+            out.rec(&rec);
+            continue;
+        };
+        let sizes: std::collections::BTreeSet<usize> = store.snapshot().iter().filter(|(k, _)| k.0 == 4).map(|(_, v)| v.len()).collect();
+        rec["pack_blobs"] = json!([1]);
+        let mid = if k == 0 { 4_096usize } else { 8_192 };
+        rec["pack_sizes"] = json!([sizes.iter().next(), sizes.iter().next_back(), sizes.len()]);
+        rec["covers_boundary"] = json!((mid - 40..mid + 40).all(|x| sizes.contains(&x)));
+        let digest = |store: &MemStore| -> String {
+            match scn::guard(|| {
+                let repo = scn::open(&store.handle(2), &key)?.to_indexed()?;
+                scn::read_back(&repo, &sn)
+            }) {
+                Outcome::Ok(e) => {
+                    let mut all = Vec::new();
+                    for (p, t, d) in e {
+                        all.extend(p.as_bytes());
+                        all.extend(t.as_bytes());
+                        all.extend(sha256(&d).to_hex().as_bytes());
+                    }
+                    sha256(&all).to_hex().as_str()[..16].to_string()
+                }
+                x => format!("{}: {}", x.class(), x.msg().chars().take(120).collect::<String>()),
+            }
+        };
+        rec["before"] = json!(digest(&store));
+        let nidx = store.ids(FileType::Index).len();
+        for i in store.ids(FileType::Index) {
+            _ = store.del_raw(FileType::Index, &i);
+        }
+        let rr = scn::guard(|| scn::open(&h, &key)?.repair_index(&RepairIndexOptions::default(), false));
+        rec["index_files_removed"] = json!(nidx);
+        rec["repair"] = json!(rr.class());
+        rec["repair_msg"] = json!(rr.msg().chars().take(300).collect::<String>());
+        rec["after"] = json!(digest(&store));
+        rec["check"] = json!(match scn::guard(|| scn::check_errors(&scn::open(&h, &key)?)) {
+            Outcome::Ok(e) if e.is_empty() => "clean".to_string(),
+            Outcome::Ok(e) => format!("errors: {}", e[0]),
+            x => format!("{}: {}", x.class(), x.msg().chars().take(200).collect::<String>()),
+        });
+        rec["result"] = json!("ok");
+        out.rec(&rec);
+    }
     _ = out.finish();
     println!("{}", json!({"ok": true}));
 }
